@@ -247,6 +247,10 @@ class Deriver:
             return f32(rng.uniform(-1000, 1000))
         if r < 0.3:
             return rng.choice([0.0, -0.0, 1.0, -1.0, 5e-324, 1.7976931348623157e308, float("-inf")])
+        if r < 0.5:
+            # a single-precision value widened to double (what a viewer that computes in floats puts into a double field):
+            # its shortest decimal form as a float and as a double differ
+            return f32(rng.choice([0.1, 1 / 3, 123456.789, rng.uniform(-256, 256), rng.uniform(-1e6, 1e6)]))
         return rng.uniform(-1e9, 1e9)
 
     # -- dispatch
